@@ -546,6 +546,25 @@ pub fn run(tier: Tier) -> i32 {
     rep.vac("states_with_disconnect_event", (r.flags_seen & 2 != 0) as u64);
     rep.vac("states_with_disconnected_connection_probed", (r.flags_seen & 4 != 0) as u64);
     rep.add_dfs("server-api", 0, d, &r);
+    // scale class: hundreds of clients handled between two drains of the event queue
+    {
+        let mut cases = 0u64;
+        for n in [2usize, 255, 256, 257, 300, 1000] {
+            for drain_between in [false, true] {
+                for variant in 0..3 {
+                    cases += 1;
+                    if let Some(v) = many_clients(n, drain_between, variant) {
+                        rep.violation(
+                            "many-clients",
+                            v,
+                            J::obj().set("kind", J::s("many")).set("clients", J::i(n as u64)).set("drain_between", J::Bool(drain_between)).set("variant", J::i(variant as u64)),
+                        );
+                    }
+                }
+            }
+        }
+        rep.add_sweep("many-clients", cases, cases, 6, vec!["n clients: add all, (drain,) disconnect / disconnect_all / hostile packet, remove all, drain: one Connected and one Disconnected per id, in that order, with the first reason".into()]);
+    }
     let mut c = RenetClient::new(config());
     c.set_connecting();
     let cw = ClientWorld { c, first: None, next_seq: 0, flags: 0 };
@@ -556,7 +575,106 @@ pub fn run(tier: Tier) -> i32 {
     rep.finish()
 }
 
+/// n clients connect; they are disconnected (variant 0: disconnect_all, 1: disconnect(id) one by one, 2: a
+/// garbage packet each) and removed; the event queue is drained only at the end (or also in between)
+pub fn many_clients(n: usize, drain_between: bool, variant: usize) -> Option<Violation> {
+    let mut srv = RenetServer::new(config());
+    let mut connected: Vec<bool> = vec![false; n];
+    let mut done: Vec<bool> = vec![false; n];
+    let mut check = |srv: &mut RenetServer, connected: &mut Vec<bool>, done: &mut Vec<bool>, expect_reason: Option<DisconnectReason>| -> Option<Violation> {
+        while let Some(ev) = srv.get_event() {
+            match ev {
+                ServerEvent::ClientConnected { client_id } => {
+                    let i = client_id as usize;
+                    if i >= n || connected[i] || done[i] {
+                        return Some(Violation::new("C12/many-clients/unexpected-connect-event", format!("id {} with {} clients", client_id, n)));
+                    }
+                    connected[i] = true;
+                }
+                ServerEvent::ClientDisconnected { client_id, reason } => {
+                    let i = client_id as usize;
+                    if i >= n || !connected[i] {
+                        return Some(Violation::new(
+                            "C12/disconnect-without-connect",
+                            format!("with {} clients: ClientDisconnected for id {} without a preceding ClientConnected (events lost between two drains?)", n, client_id),
+                        ));
+                    }
+                    connected[i] = false;
+                    done[i] = true;
+                    if let Some(r) = expect_reason {
+                        if reason != r && !matches!((r, reason), (DisconnectReason::PacketDeserialization(_), DisconnectReason::PacketDeserialization(_))) {
+                            return Some(Violation::new("C12/removal-reports-wrong-reason/many", format!("id {}: {:?} instead of {:?}", client_id, reason, r)));
+                        }
+                    }
+                }
+            }
+        }
+        None
+    };
+    let r = guard("many clients", || {
+        for i in 0..n {
+            srv.add_connection(i as u64);
+        }
+        if drain_between {
+            if let Some(v) = check(&mut srv, &mut connected, &mut done, None) {
+                return Some(v);
+            }
+        }
+        let reason = match variant {
+            0 => {
+                srv.disconnect_all();
+                DisconnectReason::DisconnectedByServer
+            }
+            1 => {
+                for i in 0..n {
+                    srv.disconnect(i as u64);
+                }
+                DisconnectReason::DisconnectedByServer
+            }
+            _ => {
+                for i in 0..n {
+                    let _ = srv.process_packet_from(&[0xff, 1, 2], i as u64);
+                }
+                DisconnectReason::PacketDeserialization(renet::verif::SerializationError::InvalidPacketType)
+            }
+        };
+        for i in 0..n {
+            srv.remove_connection(i as u64);
+        }
+        if let Some(v) = check(&mut srv, &mut connected, &mut done, Some(reason)) {
+            return Some(v);
+        }
+        if let Some(i) = done.iter().position(|d| !*d) {
+            return Some(Violation::new(
+                "C12/many-clients/connect-or-disconnect-never-reported",
+                format!("with {} clients (drain in between: {}): id {} was added and removed but its events did not both arrive", n, drain_between, i),
+            ));
+        }
+        None
+    });
+    match r {
+        Ok(v) => v,
+        Err(v) => Some(v),
+    }
+}
+
 pub fn replay(j: &J) -> i32 {
+    if j.get("kind").and_then(|k| k.as_str()) == Some("many") {
+        let n = j.get("clients").and_then(|x| x.as_i()).unwrap_or(300) as usize;
+        let db = matches!(j.get("drain_between"), Some(J::Bool(true)));
+        let variant = j.get("variant").and_then(|x| x.as_i()).unwrap_or(0) as usize;
+        println!("{} clients, drain between: {}, variant {}", n, db, variant);
+        return match many_clients(n, db, variant) {
+            Some(v) => {
+                println!("RESULT: violation {} — {}", v.signature, v.message);
+                1
+            }
+            None => {
+                println!("RESULT: no violation");
+                0
+            }
+        };
+    }
     let acts: Vec<usize> = j
         .get("actions")
         .and_then(|a| a.as_arr())
